@@ -170,7 +170,7 @@ pub fn gen(rng: &mut Rng, n: usize, _thorough: bool, stats: &mut Stats) -> Vec<S
 	for case in 0..n {
 		out.push(format!("case {}", case));
 		for _ in 0..16 {
-			let kind = rng.below(17);
+			let kind = rng.below(20);
 			let line = match kind {
 				0 | 1 => format!("amp {}", o32(gen_f32(rng))),
 				2 => {
@@ -255,6 +255,7 @@ pub fn gen(rng: &mut Rng, n: usize, _thorough: bool, stats: &mut Stats) -> Vec<S
 						format!("lerp32 {} {} {}", o32(gen_f32(rng)), o32(gen_f32(rng)), o64(gen_unit(rng)))
 					}
 				}
+				17..=19 => gen_ct_more(rng),
 				_ => {
 					let ns = match rng.below(4) {
 						0 => 10_000_000u64,
@@ -475,7 +476,11 @@ fn exec(tok: &[&str], out: &mut Out) {
 			};
 			out.put(h64(kira::verif_hooks::tween_value(&tw, p64(tok[3]))));
 		}
-		_ => panic!("units: unknown op {}", tok[0]),
+		_ => {
+			if !ct_more_ops(&tok, out) {
+				panic!("units: unknown op {}", tok[0])
+			}
+		}
 	}
 }
 
@@ -544,4 +549,221 @@ pub fn run(ops: &[String]) -> Vec<String> {
 			exec(&tok, out);
 		}
 	})
+}
+
+// ---------------------------------------------------------------------------------------------
+// the remaining operator impls of `ClockTime` (clock/time.rs): `+=` / `-=` with u64 and f64, `from_ticks_u64`,
+// the comparison operators derived from `partial_cmp`, and chains of compound assignments on one variable
+// ---------------------------------------------------------------------------------------------
+
+fn gen_ct_more(rng: &mut Rng) -> String {
+	match rng.below(10) {
+		0..=2 => format!("ct.adda {} {} {}", gen_ticks(rng), o64(gen_frac(rng)), o64(gen_signed_amount(rng))),
+		3 | 4 => format!("ct.suba {} {} {}", gen_ticks(rng), o64(gen_frac(rng)), o64(gen_signed_amount(rng))),
+		5 => {
+			let t = gen_ticks(rng);
+			if rng.chance(1, 2) {
+				format!("ct.addua {} {} {}", t, o64(gen_frac(rng)), rng.below(1 << 30))
+			} else {
+				format!("ct.subua {} {} {}", t, o64(gen_frac(rng)), rng.below(t + 1))
+			}
+		}
+		6 => format!("ct.fromu {}", gen_ticks(rng)),
+		7 => {
+			let t = gen_ticks(rng);
+			let f = gen_frac(rng);
+			let (t2, f2) = match rng.below(4) {
+				0 => (t, f),
+				1 => (t, gen_frac(rng)),
+				2 => (t + 1, 0.0),
+				_ => (gen_ticks(rng), gen_frac(rng)),
+			};
+			format!("ct.ord {} {} {} {}", t, o64(f), t2, o64(f2))
+		}
+		_ => {
+			// a chain of compound assignments; `lo` is a lower bound of the tick count (no `-= n` below it)
+			let t = rng.pick(&[0u64, 1, 5, 100, 1 << 20]);
+			let mut lo = t;
+			let mut items = vec![];
+			for _ in 0..rng.range(2, 8) {
+				match rng.below(6) {
+					0 => {
+						let n = rng.below(1000);
+						lo += n;
+						items.push(format!("A{}", n));
+					}
+					1 => {
+						let n = rng.below(lo + 1).min(1000);
+						lo -= n;
+						items.push(format!("S{}", n));
+					}
+					k => {
+						let x = gen_signed_amount(rng);
+						let up = (k % 2 == 0) == (x >= 0.0);
+						if up {
+							lo += x.abs().floor() as u64;
+						} else {
+							lo = lo.saturating_sub(x.abs().ceil() as u64 + 1);
+						}
+						items.push(format!("{}{}", if k % 2 == 0 { "a" } else { "s" }, o64(x)));
+					}
+				}
+			}
+			format!("ct.seq {} {} {}", t, o64(gen_frac(rng)), items.join(","))
+		}
+	}
+}
+
+/// amounts of either sign (negative ones are forwarded to the opposite operator), with the boundary values
+fn gen_signed_amount(rng: &mut Rng) -> f64 {
+	let x = match rng.below(8) {
+		0 => 0.0,
+		1 => 1.0,
+		2 => rng.pick(&[1e-20, 1e-17, 0.5, 0.25, 0.75, 2.0, 3.0, 1e-9, 0.9999999999999999]),
+		3 => rng.uniform(0.0, 1.0),
+		4 => rng.below(1000) as f64,
+		5 => rng.uniform(0.0, 10.0),
+		_ => rng.uniform(0.0, 1000.0),
+	};
+	if rng.chance(2, 5) {
+		-x
+	} else {
+		x
+	}
+}
+
+fn ct_val(t: ClockTime) -> f64 {
+	t.ticks as f64 + t.fraction
+}
+
+/// returns false for an op it does not know
+fn ct_more_ops(tok: &[&str], out: &mut Out) -> bool {
+	let show = |t: ClockTime| format!("{} {}", t.ticks, h64(t.fraction));
+	match tok[0] {
+		"ct.adda" | "ct.suba" => {
+			let add = tok[0] == "ct.adda";
+			let t = ct(pu(tok[1]), p64(tok[2]));
+			let x = p64(tok[3]);
+			let mut a = t;
+			if add {
+				a += x;
+			} else {
+				a -= x;
+			}
+			out.put(show(a));
+			// the fraction of a clock time stays in [0, 1)
+			if !(a.fraction >= 0.0 && a.fraction < 1.0) {
+				out.oracle_fail("clocktime_assign_fraction", tok.join(" "));
+			}
+			// `a += x` is `a = a + x`, `a -= x` is `a = a - x` (the meaning of a compound assignment)
+			let b = if add { t + x } else { t - x };
+			if a.ticks != b.ticks || a.fraction.to_bits() != b.fraction.to_bits() {
+				out.oracle_fail("clocktime_assign_eq_binary", tok.join(" "));
+			}
+			// add then subtract returns; the result is the arithmetic result (when nothing saturates at tick 0)
+			let before = ct_val(t);
+			let goes_down = add != (x >= 0.0);
+			if !(goes_down && x.abs() > before - 1e-6) && t.ticks < (1 << 40) && x.abs() < 1e6 {
+				let mut back = a;
+				if add {
+					back -= x;
+				} else {
+					back += x;
+				}
+				if (ct_val(back) - before).abs() > 1e-6 {
+					out.oracle_fail("clocktime_assign_add_sub", tok.join(" "));
+				}
+				let want = if add { before + x } else { before - x };
+				if (ct_val(a) - want).abs() > 1e-6 * want.abs().max(1.0) {
+					out.oracle_fail("clocktime_assign_value", tok.join(" "));
+				}
+			}
+		}
+		"ct.addua" | "ct.subua" => {
+			let add = tok[0] == "ct.addua";
+			let t = ct(pu(tok[1]), p64(tok[2]));
+			let n = pu(tok[3]);
+			let mut a = t;
+			if add {
+				a += n;
+			} else {
+				a -= n;
+			}
+			out.put(show(a));
+			let b = if add { t + n } else { t - n };
+			let want = if add { t.ticks + n } else { t.ticks - n };
+			if a != b || a.ticks != want || a.fraction.to_bits() != t.fraction.to_bits() {
+				out.oracle_fail("clocktime_assign_whole_ticks", tok.join(" "));
+			}
+		}
+		"ct.fromu" => {
+			let id = ct(0, 0.0).clock;
+			let t = ClockTime::from_ticks_u64(id, pu(tok[1]));
+			out.put(show(t));
+			if t.ticks != pu(tok[1]) || t.fraction != 0.0 || t.clock != id {
+				out.oracle_fail("clocktime_from_whole_ticks", tok.join(" "));
+			}
+		}
+		"ct.ord" => {
+			let a = ct(pu(tok[1]), p64(tok[2]));
+			let b = ct(pu(tok[3]), p64(tok[4]));
+			let bits = [a < b, a <= b, a > b, a >= b, a == b];
+			out.put(bits.iter().map(|c| if *c { "1" } else { "0" }).collect::<Vec<_>>().join(" "));
+			// fractions are in [0, 1): lexicographic order on (ticks, fraction) is the numeric order of the times
+			let k = (a.ticks, a.fraction);
+			let l = (b.ticks, b.fraction);
+			if bits != [k < l, k <= l, k > l, k >= l, k == l] {
+				out.oracle_fail("clocktime_operators", tok.join(" "));
+			}
+		}
+		"ct.seq" => {
+			let t0 = ct(pu(tok[1]), p64(tok[2]));
+			let mut a = t0;
+			// the same history with the binary operators, and as plain arithmetic
+			let mut b = t0;
+			let (mut want, mut exact, mut bad_fraction) = (ct_val(t0), true, false);
+			for item in tok[3].split(',') {
+				let (k, v) = item.split_at(1);
+				match k {
+					"a" => {
+						a += p64(v);
+						b = b + p64(v);
+						want += p64(v);
+					}
+					"s" => {
+						a -= p64(v);
+						b = b - p64(v);
+						want -= p64(v);
+					}
+					"A" => {
+						a += pu(v);
+						b = b + pu(v);
+						want += pu(v) as f64;
+					}
+					_ => {
+						a -= pu(v);
+						b = b - pu(v);
+						want -= pu(v) as f64;
+					}
+				}
+				// a time below tick 0 saturates: the arithmetic comparison no longer applies (margin: `want` is rounded)
+				if want < 1e-6 {
+					exact = false;
+				}
+				bad_fraction |= !(a.fraction >= 0.0 && a.fraction < 1.0);
+			}
+			out.put(show(a));
+			if bad_fraction {
+				out.oracle_fail("clocktime_assign_fraction", tok.join(" "));
+			}
+			if a.ticks != b.ticks || a.fraction.to_bits() != b.fraction.to_bits() {
+				out.oracle_fail("clocktime_assign_eq_binary", tok.join(" "));
+			}
+			if exact && (ct_val(a) - want).abs() > 1e-6 * want.abs().max(1.0) {
+				out.oracle_fail("clocktime_assign_value", tok.join(" "));
+			}
+		}
+		_ => return false,
+	}
+	true
 }
